@@ -371,6 +371,15 @@ def probe_indexing(acc: core.Acc, case: dict, frame: Frame, where: str) -> None:
     xs = sorted({-1, 0, w - 1, w, w + 1})
     ys = sorted({-1, 0, h - 1, h, h + 1})
     n = 0
+    reported = set()
+
+    def fail(kind: str, detail: str, **sig) -> None:
+        # one report per (clause, signature) and probed frame: a flood of identical findings adds nothing
+        key = (kind, tuple(sorted(sig.items())))
+        if key not in reported:
+            reported.add(key)
+            acc.fail(kind, case, detail, **sig)
+        acc.count('index_probe_failures')
     for x in xs:
         for y in ys:
             inside = 0 <= x < w and 0 <= y < h
@@ -399,10 +408,10 @@ def probe_indexing(acc: core.Acc, case: dict, frame: Frame, where: str) -> None:
             if inside:
                 want = tuple(model[off:off + 4])
                 if got != ('value', want):
-                    acc.fail('index_get', case, f'{where} frame {w}x{h}: frame[{x},{y}] -> {got}, model pixel {want}',
+                    fail('index_get', f'{where} frame {w}x{h}: frame[{x},{y}] -> {got}, model pixel {want}',
                              oob=oob, got=got[0])
             elif got[0] != 'IndexError':
-                acc.fail('index_get', case, f'{where} frame {w}x{h}: frame[{x},{y}] is out of range but gave {got} '
+                fail('index_get', f'{where} frame {w}x{h}: frame[{x},{y}] is out of range but gave {got} '
                          f'instead of IndexError', oob=oob, got=got[0])
             # --- set
             acc.count('index_probes')
@@ -419,14 +428,14 @@ def probe_indexing(acc: core.Acc, case: dict, frame: Frame, where: str) -> None:
                 model[off:off + 4] = bytes(val)
             now = frame_bytes(frame)
             if inside and res != 'stored':
-                acc.fail('index_set', case, f'{where} frame {w}x{h}: frame[{x},{y}] = {val} raised {res}', oob=oob, got=res)
+                fail('index_set', f'{where} frame {w}x{h}: frame[{x},{y}] = {val} raised {res}', oob=oob, got=res)
             elif not inside and res != 'IndexError':
                 changed = [i // 4 for i in range(0, len(now), 4) if now[i:i + 4] != model[i:i + 4]]
-                acc.fail('index_set', case, f'{where} frame {w}x{h}: frame[{x},{y}] = {val} is out of range but gave '
+                fail('index_set', f'{where} frame {w}x{h}: frame[{x},{y}] = {val} is out of range but gave '
                          f'{res} instead of IndexError; pixels changed: {changed}', oob=oob, got=res)
             elif now != bytes(model):
                 changed = [i // 4 for i in range(0, len(now), 4) if now[i:i + 4] != model[i:i + 4]]
-                acc.fail('index_set', case, f'{where} frame {w}x{h}: frame[{x},{y}] = {val} ({res}) changed pixels '
+                fail('index_set', f'{where} frame {w}x{h}: frame[{x},{y}] = {val} ({res}) changed pixels '
                          f'{changed}, expected only #{off // 4 if inside else None}', oob=oob, got='wrong_pixels')
             model[:] = now      # resynchronise so one fault is reported once
 
@@ -615,6 +624,7 @@ def check_case(acc: core.Acc, dev: dict) -> None:
         acc.fail('file_size', case, f'file has {len(data1) - (high_off or 0)} bytes of image data at offset {high_off}; its header '
                  f'({hd["w"]}x{hd["h"]}, {hd["frames"]} frames, {hfaces} faces/slices, {hd["mips"]} mips, {fmt}) implies {image_len}',
                  cube=cube, savever=bool(cfg['savever']))
+        return      # the file contradicts its own header; nothing read from it is meaningful
 
     # -- read back
     try:
@@ -687,6 +697,9 @@ def check_case(acc: core.Acc, dev: dict) -> None:
         fr = get_frame(rd, nk)
         if (fr.width, fr.height) != (max(1, w >> nk[2]), max(1, h >> nk[2])):
             acc.fail('frame_dims', case, f'read-back frame {nk} is {fr.width}x{fr.height}', obj='read')
+
+    if not read_keys:
+        return      # nothing was stored (already reported as frames_lost); no pixels to compare or store again
 
     # -- header-only read
     try:
